@@ -4,6 +4,7 @@ import itertools
 import os
 import zlib
 import common as C
+import gen_args
 
 PROPERTIES = ["C20"]
 MANIFEST = {
@@ -61,13 +62,22 @@ MANIFEST = {
         "design_ref": "DESIGN.md 3/C20",
     }
 }
-PROPS = ["Nstd.Args.Props", "Nstd.Args.PropsWait", "Nstd.Args.PropsRun", "Nstd.Args.PropsRead", "Nstd.Args.PropsFds"]
+PROPS = ["Nstd.Args.Props", "Nstd.Args.PropsWait", "Nstd.Args.PropsRun", "Nstd.Args.PropsRead", "Nstd.Args.PropsFds",
+         "Nstd.Args.PropsCode"]
 LEAN_TARGETS = PROPS + ["drv_args"]
 DRIVER = "drv_args"
 SOURCES = ["args.cpp", C.REPO / "src/String.cpp", C.REPO / "src/Memory.cpp", C.REPO / "src/Debug.cpp",
            C.REPO / "src/File.cpp", C.REPO / "src/Directory.cpp"]       # Process.cpp is #included by the harness
 
 CHILD = b"CHILD"
+
+
+def setup():
+    """regenerate lean/Nstd/Generated/ArgsCode.lean (translation of Arguments::nextChar / read / constructor and
+    splitCommandLine) from the current sources before the Lean targets are built"""
+    ok, msg = gen_args.run()
+    if not ok:
+        print("args translate:", msg)
 
 
 def hx(b):
@@ -1016,7 +1026,7 @@ ASSUMPTIONS = [
 
 def check(ctx):
     ctx.assumptions += ASSUMPTIONS
-    proof_ok = C.proof_stage(ctx, PROPS, [DRIVER], leanchecker=(ctx.tier == "thorough"))
+    proof_ok = C.proof_stage(ctx, PROPS, [DRIVER], gen=gen_args.gen, leanchecker=(ctx.tier == "thorough"))
     harness = C.build_harness(ctx, "args", SOURCES)
     child = build_child(ctx)
     if harness is None or child is None or not C.driver_path(DRIVER).exists():
